@@ -33,6 +33,7 @@ type c18Resp struct {
 	nameCase    int // 0 canonical, 1 lower, 2 upper
 	sep         int // 0 ": ", 1 ":", 2 ":   ", 3 ": value  "
 	extra       int
+	extraVals   []string // values of the extra headers, fixed by the script so that every build of the head has the same length
 	piggy       []wsMsg // frames in the same byte string as the response
 	later       []wsMsg // frames sent a little later
 	cuts        []int   // segmentation of response+piggy
@@ -48,7 +49,7 @@ func c18Accept(key string) string {
 	return base64.StdEncoding.EncodeToString(h[:])
 }
 
-func c18Build(r *vf.Rand, key string, rs *c18Resp) []byte {
+func c18Build(key string, rs *c18Resp) []byte {
 	var hdrs [][2]string
 	if rs.upgrade != "" {
 		hdrs = append(hdrs, [2]string{"Upgrade", rs.upgrade})
@@ -65,7 +66,7 @@ func c18Build(r *vf.Rand, key string, rs *c18Resp) []byte {
 		hdrs = append(hdrs, [2]string{"Sec-WebSocket-Accept", c18Accept("dGhlIHNhbXBsZSBub25jZQ==")})
 	}
 	for i := 0; i < rs.extra; i++ {
-		hdrs = append(hdrs, [2]string{fmt.Sprintf("X-Extra-%d", i), string(asciiBytes(r, r.Range(1, 30)))})
+		hdrs = append(hdrs, [2]string{fmt.Sprintf("X-Extra-%d", i), rs.extraVals[i]})
 	}
 	// order permutation
 	for i := len(hdrs) - 1; i > 0; i-- {
@@ -139,7 +140,7 @@ func (sv *c18Server) serve(r *vf.Rand, rs *c18Resp, out chan<- c18Result, releas
 	if hr, err := http.ReadRequest(bufio.NewReader(bytes.NewReader(res.request))); err == nil {
 		res.key = hr.Header.Get("Sec-WebSocket-Key")
 	}
-	head := c18Build(r, res.key, rs)
+	head := c18Build(res.key, rs)
 	res.headLen = len(head)
 	payload := append([]byte(nil), head...)
 	for _, m := range rs.piggy {
@@ -197,6 +198,9 @@ func c18Script(r *vf.Rand) *c18Resp {
 	rs.nameCase = r.Intn(3)
 	rs.sep = r.Intn(4)
 	rs.extra = r.Intn(4)
+	for i := 0; i < rs.extra; i++ {
+		rs.extraVals = append(rs.extraVals, string(asciiBytes(r, r.Range(1, 30))))
+	}
 	for i := 0; i < 8; i++ {
 		rs.order = append(rs.order, r.Intn(1000))
 	}
@@ -266,7 +270,7 @@ func runC18(c *vf.Case) {
 		rs := c18Script(r)
 		async := r.Bool()
 		// dry run of the builder to know the length for cut / close offsets
-		probe := c18Build(vf.NewRand(1), "AAAAAAAAAAAAAAAAAAAAAA==", rs)
+		probe := c18Build("AAAAAAAAAAAAAAAAAAAAAA==", rs)
 		total := len(probe)
 		for _, m := range rs.piggy {
 			total += len(wsref.Frame{Fin: true, Opcode: 1, Payload: m.Payload}.Encode())
